@@ -44,6 +44,7 @@ func c08(c *Ctx) {
 	}
 	c03R7(c, "R7/C03.R7")
 	coreCommitBundle(c, "R8")
+	c02R2(c, "R9/C02.R2")
 }
 
 // recvArms lists (select, case index) pairs in fn that receive from a channel
